@@ -43,18 +43,18 @@ fn gk_from(v: &Value) -> GK {
     (u128::from_str_radix(v[0].as_str().unwrap().trim_start_matches("0x"), 16).unwrap(), v[1].as_u64().unwrap() as u8)
 }
 
-fn pairs_typed<P: PType, B: Side<P>>(spec: &Value, right_kind: &str) -> Value {
+fn pairs_typed<P: PType, A: Side<P>, B: Side<P>>(spec: &Value, left_kind: &str, right_kind: &str) -> Value {
     let uni = uni_of::<P>(spec);
     let threads = u(spec, "threads", 1) as usize;
     let all_roots = spec.get("all_roots").and_then(|x| x.as_bool()).unwrap_or(false);
     let alpha = if s(spec, "alpha", "structural") == "canonical" { Alphabet::Canonical } else { Alphabet::Structural };
-    let (left, rep_l): (Vec<PState<PrefixMap<P, u32>>>, _) = pairs::gen_states::<P, PrefixMap<P, u32>>(&uni, 0, alpha, all_roots, threads, "left states");
+    let (left, rep_l): (Vec<PState<A>>, _) = pairs::gen_states::<P, A>(&uni, 0, alpha, all_roots, threads, "left states");
     let right_alpha = if s(spec, "right_alpha", "") == "canonical" { Alphabet::Canonical } else { alpha };
     let (right, rep_r): (Vec<PState<B>>, _) = pairs::gen_states::<P, B>(&uni, 1, right_alpha, all_roots, threads, "right states");
     let mode = if s(spec, "mode", "all") == "whole" { RootMode::Whole } else { RootMode::All };
     let (m, r) = (u(spec, "a_mod", 1) as usize, u(spec, "a_rem", 0) as usize);
     let filter = move |i: usize| i % m == r;
-    let pr = pairs::run_pairs::<P, PrefixMap<P, u32>, B>(&left, &right, &uni, mode, threads, &filter);
+    let pr = pairs::run_pairs::<P, A, B>(&left, &right, &uni, mode, threads, &filter);
     let found: Vec<Value> = pr
         .found
         .iter()
@@ -62,7 +62,7 @@ fn pairs_typed<P: PType, B: Side<P>>(spec: &Value, right_kind: &str) -> Value {
             json!({
                 "property": f.viol.prop, "site": f.viol.site, "cond": f.viol.cond, "detail": f.viol.detail, "at": "pair", "occurrences": f.occurrences,
                 "history": ops_json(&left[f.a].hist, &uni),
-                "extra": {"b_history": ops_json(&right[f.b].hist, &uni), "root_a": gk_json(f.qa), "root_b": gk_json(f.qb), "right_kind": right_kind},
+                "extra": {"b_history": ops_json(&right[f.b].hist, &uni), "root_a": gk_json(f.qa), "root_b": gk_json(f.qb), "right_kind": right_kind, "left_kind": left_kind},
             })
         })
         .collect();
@@ -70,7 +70,7 @@ fn pairs_typed<P: PType, B: Side<P>>(spec: &Value, right_kind: &str) -> Value {
         json!({"left_history": a.hist.iter().map(|o| o.describe(&uni)).collect::<Vec<_>>(), "right_history": b.hist.iter().map(|o| o.describe(&uni)).collect::<Vec<_>>(), "left_roots": a.roots.len(), "right_roots": b.roots.len()})
     });
     json!({
-        "spec": spec, "engine": "pairs", "run": format!("pairs {} {} x {} {} roots={:?}", P::NAME, uni.name, right_kind, s(spec, "right_alpha", s(spec, "alpha", "structural")), mode),
+        "spec": spec, "engine": "pairs", "run": format!("pairs {} {} {} x {} {} roots={:?}", left_kind, P::NAME, uni.name, right_kind, s(spec, "right_alpha", s(spec, "alpha", "structural")), mode),
         "states": rep_l.states + rep_r.states, "shape_states": rep_l.shape_states + rep_r.shape_states, "transitions": rep_l.transitions + rep_r.transitions,
         "left_states": left.len(), "right_states": right.len(), "pairs": pr.pairs, "root_pairs": pr.root_pairs,
         "evaluations": pr.counters.evaluations, "items": pr.counters.items, "both_items": pr.counters.both_items, "lpm_annotations_some": pr.counters.lpm_some,
@@ -81,10 +81,11 @@ fn pairs_typed<P: PType, B: Side<P>>(spec: &Value, right_kind: &str) -> Value {
 }
 
 fn run_pairs_engine<P: PType>(spec: &Value) -> Value {
-    if s(spec, "right_kind", "map") == "set" {
-        pairs_typed::<P, PrefixSet<P>>(spec, "set")
-    } else {
-        pairs_typed::<P, PrefixMap<P, u32>>(spec, "map")
+    match (s(spec, "left_kind", "map"), s(spec, "right_kind", "map")) {
+        ("set", "set") => pairs_typed::<P, PrefixSet<P>, PrefixSet<P>>(spec, "set", "set"),
+        ("set", _) => pairs_typed::<P, PrefixSet<P>, PrefixMap<P, u32>>(spec, "set", "map"),
+        (_, "set") => pairs_typed::<P, PrefixMap<P, u32>, PrefixSet<P>>(spec, "map", "set"),
+        _ => pairs_typed::<P, PrefixMap<P, u32>, PrefixMap<P, u32>>(spec, "map", "map"),
     }
 }
 
@@ -170,13 +171,13 @@ pub fn run_engine(name: &str, spec: &Value, _idx: usize) -> Value {
     }
 }
 
-fn replay_pairs_typed<P: PType, B: Side<P>>(rp: &Value) -> Option<Vec<crate::viol::Viol>> {
+fn replay_pairs_typed<P: PType, A: Side<P>, B: Side<P>>(rp: &Value) -> Option<Vec<crate::viol::Viol>> {
     let spec = &rp["spec"];
     let uni = uni_of::<P>(spec);
     let ko = KeyOpts { reps: false, layout: false, no_free: true };
     let ha = ops_from_json(&rp["history"]);
     let hb = ops_from_json(&rp["extra"]["b_history"]);
-    let a = rebuild::<PrefixMap<P, u32>>(&uni, &ha, ko)?;
+    let a = rebuild::<A>(&uni, &ha, ko)?;
     let b = rebuild::<B>(&uni, &hb, ko)?;
     let (qa, qb) = (gk_from(&rp["extra"]["root_a"]), gk_from(&rp["extra"]["root_b"]));
     let mut am = a.map.clone();
@@ -184,7 +185,7 @@ fn replay_pairs_typed<P: PType, B: Side<P>>(rp: &Value) -> Option<Vec<crate::vio
     let mut sa = a.model.entries();
     let mut sb = b.model.entries();
     let mut cnt = pairs::PairCounters::default();
-    let r = guarded(|| pairs::eval_root_pair::<P, PrefixMap<P, u32>, B>(&mut am, &mut bm, &mut sa, &mut sb, with_rep(qa, 1, uni.width), with_rep(qb, 0, uni.width), uni.width, 1_000_000, &mut cnt));
+    let r = guarded(|| pairs::eval_root_pair::<P, A, B>(&mut am, &mut bm, &mut sa, &mut sb, with_rep(qa, 1, uni.width), with_rep(qb, 0, uni.width), uni.width, 1_000_000, &mut cnt));
     Some(match r {
         Ok(v) => v,
         Err(msg) => vec![crate::viol::Viol::new("C20", "set operation", "panic", msg)],
@@ -192,10 +193,11 @@ fn replay_pairs_typed<P: PType, B: Side<P>>(rp: &Value) -> Option<Vec<crate::vio
 }
 
 fn replay_pairs<P: PType>(rp: &Value) -> Option<Vec<crate::viol::Viol>> {
-    if rp["extra"]["right_kind"].as_str() == Some("set") {
-        replay_pairs_typed::<P, PrefixSet<P>>(rp)
-    } else {
-        replay_pairs_typed::<P, PrefixMap<P, u32>>(rp)
+    match (rp["extra"]["left_kind"].as_str().unwrap_or("map"), rp["extra"]["right_kind"].as_str().unwrap_or("map")) {
+        ("set", "set") => replay_pairs_typed::<P, PrefixSet<P>, PrefixSet<P>>(rp),
+        ("set", _) => replay_pairs_typed::<P, PrefixSet<P>, PrefixMap<P, u32>>(rp),
+        (_, "set") => replay_pairs_typed::<P, PrefixMap<P, u32>, PrefixSet<P>>(rp),
+        _ => replay_pairs_typed::<P, PrefixMap<P, u32>, PrefixMap<P, u32>>(rp),
     }
 }
 
